@@ -50,9 +50,15 @@ def generator(prefix):
 
 def search(prop, ob, failure, repo="/repo"):
     labels = list(ob.get("labels") or []) + [ob["id"].split("@")[0], ob["id"]]
-    for prefix, fn in GENERATORS:
-        if any(l.startswith(prefix) for l in labels):
-            w = fn(repo, ob, failure)
+    # generators registered for a label of the property being checked come first
+    own = [l for l in labels if l.startswith(prop + ".")]
+    tried = set()
+    for lset in (own, labels):
+        for prefix, fn in GENERATORS:
+            if fn in tried or not any(l.startswith(prefix) for l in lset):
+                continue
+            tried.add(fn)
+            w = fn(repo, dict(ob, labels=lset), failure)
             if w:
                 w.setdefault("reproduced", True)
                 return w
@@ -997,3 +1003,59 @@ def _inside_transformed(repo, ob, failure):
 
 
 GENERATORS.insert(0, ("C12.inside.rect_in_", _inside_transformed))
+
+
+def _retry_prev(repo, ob, failure):
+    """'^' in an element that has to be re-evaluated (forward reference) still means the element written before it"""
+    import re as _re
+    cases = [('<svg><rect id="a" xy="10 20" wh="30 10"/><rect id="n" xy="^|h 5" wh="#z"/><rect id="z" xy="0 50" wh="20"/></svg>', r'<rect id="n" x="45" y="15" width="20" height="20"'),
+             ('<svg><rect id="first" xy="0 0" wh="10"/><rect id="a" xy="#z|h 5" wh="10"/><rect id="n" xy="^|v 2" wh="4"/><rect id="z" xy="30 50" wh="20"/></svg>', r'<rect id="n" x="58" y="67" width="4" height="4"')]
+    for doc, want in cases:
+        r = run_svgdx(repo, doc)
+        if r["rc"] != 0:
+            continue
+        body = r["out"].split("</style>")[-1]
+        if not _re.search(want, body):
+            m = _re.search(r'<rect id="n"[^>]*>', body)
+            return {"input": doc, "observed": "written as %s" % (m.group(0) if m else body.strip()[:160]), "expected": "/%s/ (relative to the element written before it)" % want}
+    return None
+
+
+GENERATORS.insert(0, ("C10.retry.same_context", _retry_prev))
+GENERATORS.insert(0, ("C09.retry.same_context", _retry_prev))
+
+
+def _retry_control(repo, ob, failure):
+    """an <if> / <loop> whose body contains a forward reference renders what its unrolling renders"""
+    import re as _re
+    cases = [('<svg><var n="0"/><if test="eq($n, 0)"><var n="1"/><rect xy="#z|h" wh="5"/></if><rect id="z" xy="0" wh="10"/></svg>', 1),
+             ('<svg><var n="0"/><loop while="lt($n, 3)"><var n="{{$n + 1}}"/><rect xy="#z|h" wh="2"/></loop><rect id="z" xy="0" wh="10"/></svg>', 3)]
+    for doc, want in cases:
+        r = run_svgdx(repo, doc)
+        if r["rc"] != 0:
+            continue
+        n = len(_re.findall(r"<rect (?!id=)", r["out"].split("</style>")[-1]))
+        if n != want:
+            return {"input": doc, "observed": "%d body rect(s) rendered" % n, "expected": "%d (as the manual unrolling renders)" % want}
+    return None
+
+
+GENERATORS.insert(0, ("C16.retry.same_context", _retry_control))
+
+
+def _content_whole(repo, ob, failure):
+    """element content consisting of several text / CDATA events is the text as a whole"""
+    for doc, want in (('<svg><rect wh="20">abc<![CDATA[def]]>ghi</rect></svg>', "abcdefghi"), ('<svg><text xy="1">a <![CDATA[<]]> b</text></svg>', "a < b")):
+        r = run_svgdx(repo, doc)
+        if r["rc"] != 0:
+            continue
+        tree, err = _parse_xml(r["out"])
+        if tree is None:
+            return {"input": doc, "observed": "output not well-formed: " + err, "expected": want}
+        texts = ["".join(t.itertext()) for t in tree.iter() if t.tag.endswith("text")]
+        if want not in texts:
+            return {"input": doc, "observed": "character data of generated text: %r" % texts, "expected": repr(want)}
+    return None
+
+
+GENERATORS.insert(0, ("C19.content.whole", _content_whole))
